@@ -319,6 +319,10 @@ def env_matrix(ctx, vh, tmp, tier):
             s = socket.socket(socket.AF_UNIX, socket.SOCK_STREAM)
             s.bind(p)
             s.listen(8)
+            # every other row hands over NON-BLOCKING listening sockets, as an event-loop based
+            # activator does (the flag lives in the open file description and is inherited)
+            if ri % 2 == 1:
+                s.setblocking(False)
             socks.append(s)
             paths.append(p)
         own = os.path.join(tmp, "own%d" % ri)
@@ -374,11 +378,28 @@ def env_matrix(ctx, vh, tmp, tier):
                 except (OSError, ValueError):
                     pass
             time.sleep(0.02)
+        # a service keeps serving: a second, later connection to the socket that answered
+        later_ok = None
+        if answered is not None:
+            time.sleep(0.05)
+            apath = own if answered == 3 else paths[answered]
+            later_ok = False
+            for _ in range(3):
+                try:
+                    r2 = getinfo("unix:" + apath, timeout=2.0)
+                    if r2 and "parameters" in r2:
+                        later_ok = True
+                        break
+                except (OSError, ValueError):
+                    pass
+                time.sleep(0.1)
         p.kill()
         p.wait()
         ctx.case(("env-matrix", fds, pid, names))
         ctx.count("env_matrix_rows")
-        wit = {"engine": "c16", "LISTEN_FDS": fds, "LISTEN_PID": pid, "LISTEN_FDNAMES": names, "answered_on": ("fd %d" % (3 + answered) if answered is not None and answered < 3 else ("own address" if answered == 3 else None)), "exit": p.returncode}
+        wit = {"engine": "c16", "LISTEN_FDS": fds, "LISTEN_PID": pid, "LISTEN_FDNAMES": names, "activated_sockets_nonblocking": ri % 2 == 1, "answered_on": ("fd %d" % (3 + answered) if answered is not None and answered < 3 else ("own address" if answered == 3 else None)), "exit": p.returncode}
+        if later_ok is False:
+            ctx.violation("c16:service-stops-answering-after-its-first-connection", dict(wit, message="the socket that answered the first connection did not answer a second one (3 attempts, 2 s each); service exit status %r" % p.returncode))
         if pid != "right" or fds in (None, "0", "x"):
             # must not honour activation
             if answered is not None and answered < 3:
